@@ -43,7 +43,11 @@ use serde::{Deserialize, Serialize};
 /// [`ShortMessage`]: trait.ShortMessage.html
 /// [`ParameterNumberMessageScanner`]: struct.ParameterNumberMessageScanner.html
 #[derive(Copy, Clone, Eq, PartialEq, Hash, Debug)]
-#[cfg_attr(feature = "serde", derive(Serialize, Deserialize))]
+#[cfg_attr(
+    feature = "serde",
+    derive(Serialize, Deserialize),
+    serde(try_from = "UncheckedParameterNumberMessage")
+)]
 pub struct ParameterNumberMessage {
     channel: Channel,
     number: U14,
@@ -51,6 +55,43 @@ pub struct ParameterNumberMessage {
     is_registered: bool,
     is_14_bit: bool,
     data_type: DataType,
+}
+
+/// Deserialization goes through this unchecked mirror so that deserialized values are as
+/// consistent as the ones created via the constructors.
+#[cfg(feature = "serde")]
+#[derive(Deserialize)]
+#[serde(rename = "ParameterNumberMessage")]
+struct UncheckedParameterNumberMessage {
+    channel: Channel,
+    number: U14,
+    value: U14,
+    is_registered: bool,
+    is_14_bit: bool,
+    data_type: DataType,
+}
+
+#[cfg(feature = "serde")]
+impl core::convert::TryFrom<UncheckedParameterNumberMessage> for ParameterNumberMessage {
+    type Error = &'static str;
+
+    fn try_from(m: UncheckedParameterNumberMessage) -> Result<Self, Self::Error> {
+        if m.is_14_bit {
+            if m.data_type != DataType::DataEntry {
+                return Err("14-bit (N)RPN message must be a data entry message");
+            }
+        } else if m.value > U14::from(U7::MAX) {
+            return Err("value of 7-bit (N)RPN message must not exceed 127");
+        }
+        Ok(ParameterNumberMessage {
+            channel: m.channel,
+            number: m.number,
+            value: m.value,
+            is_registered: m.is_registered,
+            is_14_bit: m.is_14_bit,
+            data_type: m.data_type,
+        })
+    }
 }
 
 impl ParameterNumberMessage {
